@@ -829,7 +829,7 @@ func runCases(path, outPath string, byName map[string]*space) {
 }
 
 func writeStats(out string) {
-	var ps []*panicInfo
+	ps := []*panicInfo{}
 	for _, p := range panicSum {
 		ps = append(ps, p)
 	}
